@@ -530,3 +530,48 @@ Proof.
     destruct f; [rewrite nondeg_keeps_sum|]; reflexivity.
   - unfold op_one. rewrite E. unfold op_summary. destruct (hs_net (c_x c)); [congruence|reflexivity].
 Qed.
+
+(* ------------------------------------------------------------------ frame: which stored groups a call may write *)
+
+(** compute_linkage_deficiencies writes the class deficiencies only; nondegeneracy_test writes its own record only (in
+    particular it does not touch the stored complexes); the three checks write nothing; run_deficiency_one_algorithm never
+    touches the nondegeneracy record and keeps a summary / class deficiencies that were already stored (on an object that has a summary) *)
+Theorem api_frame o c st :
+  let st' := fst (apply_op o c st) in
+  (c_op c = OLinkage -> s_sum st' = s_sum st /\ s_one st' = s_one st /\ s_nd st' = s_nd st) /\
+  (c_op c = ONondeg -> s_sum st' = s_sum st /\ s_ld st' = s_ld st /\ s_one st' = s_one st) /\
+  (c_op c = OCheck0 \/ c_op c = OCheck1 \/ c_op c = OReg -> st' = st) /\
+  (c_op c = OOne -> s_sum st <> None ->
+     s_nd st' = s_nd st /\ s_sum st' = s_sum st /\ (s_ld st <> None -> s_ld st' = s_ld st)).
+Proof.
+  intros st'. subst st'. unfold apply_op. split; [|split; [|split]].
+  - intros ->. unfold op_linkage. destruct (s_sum st) eqn:Es; simpl; rewrite ?Es; auto.
+  - intros ->. split; [apply nondeg_keeps_sum|].
+    unfold op_nondeg. destruct (negb (o_stoich o)); [auto|]. destruct (s_sum st) eqn:Es; [|auto].
+    destruct (hs_net (c_x c)); [auto|]. destruct (nondeg _ _ _ _); auto.
+  - intros [-> | [-> | ->]]; reflexivity.
+  - intros -> NS. unfold op_one, op_linkage. destruct (s_sum st) as [sn|] eqn:Es; [|congruence]. simpl.
+    destruct (s_ld st) eqn:El; simpl; rewrite ?Es, ?El; simpl; rewrite ?Es, ?El; (split; [reflexivity|]); split; intros; try reflexivity; congruence.
+Qed.
+
+(* ------------------------------------------------------------------ the routes of the staged machine are scripts of public calls *)
+
+Definition script_of (style : nat) (x : hist_step) : list call :=
+  match style with
+  | 2 => [(OSummary, x, []); (OOne, x, [])]
+  | 1 => [(OSummary, x, []); (OLinkage, x, []); (OOne, x, [])]
+  | _ => [(OCrn false, x, [])]
+  end.
+
+(** the three routes of model/C19_Model.v (evaluated for the history populations) are the call scripts
+    [compute_crn_deficiency] / [compute_summary; compute_linkage_deficiencies; run_deficiency_one_algorithm] /
+    [compute_summary; run_deficiency_one_algorithm] of the API machine, from any state *)
+Theorem routes_are_scripts style x st : hs_net x <> [] ->
+  to_old (run_calls default_opts (script_of style x) st) = route style x (to_old st).
+Proof.
+  intros NE. rewrite route_fresh. destruct (hs_net x) as [|e net] eqn:E; [congruence|].
+  unfold run_calls, script_of.
+  destruct style as [|[|[|n]]]; cbn [fold_left]; unfold apply_op; cbn [c_op c_x c_mis fst snd];
+    unfold op_crn, op_one, op_linkage, op_summary; repeat (rewrite E; cbn [fst snd s_sum s_ld s_one s_nd]);
+    unfold route, route_with, do_one_with, do_linkage, do_summary, fresh_sum, to_old, stored_one, stored_ld, snap_of; cbn; reflexivity.
+Qed.
